@@ -337,6 +337,51 @@ func c19RawTCP(c *Ctx, srv *server) {
 	}
 }
 
+func c19Soak(c *Ctx, srv *server, seq []hostileReq, probe func()) {
+	pad := strings.Repeat("x", 1<<20-4096)
+	type cls struct {
+		path   string
+		status int
+	}
+	seen := map[cls]bool{}
+	var reps []hostileReq
+	for _, k := range seq {
+		if k.Method != "POST" || k.Body == "" || len(k.Body) > 4000 {
+			continue
+		}
+		b := strings.TrimSpace(string(unhex(k.Body)))
+		if !strings.HasPrefix(b, "{") || !strings.HasSuffix(b, "}") || len(b) < 3 {
+			continue
+		}
+		res := srv.do("POST", k.Path, []byte(b), false, 30*time.Second)
+		if res.Err != nil || res.Status < 400 {
+			continue
+		}
+		key := cls{pathClass(k.Path), res.Status}
+		if seen[key] {
+			continue
+		}
+		seen[key] = true
+		// the same request with a large ignored field: same error path, large body
+		big := b[:len(b)-1] + `,"pad":"` + pad + `"}`
+		reps = append(reps, hostileReq{Method: "POST", Path: k.Path, Body: hs(big), Note: fmt.Sprintf("soak: error path %s -> %d with a ~1 MiB body", key.path, key.status)})
+	}
+	n := c.N(90, 300)
+	for _, k := range reps {
+		for i := 0; i < n; i++ {
+			judgeHostile(c, srv, k, i == 0)
+			if i%30 == 29 {
+				probe()
+			}
+		}
+		probe()
+		c.R.Count("soak_error_classes", 1)
+	}
+	for i := 0; i < 10; i++ {
+		probe()
+	}
+}
+
 func runC19(c *Ctx) {
 	r := c.R
 	srv, err := startServer(c, "VERIF_SERVER_BIN")
@@ -385,6 +430,9 @@ func runC19(c *Ctx) {
 			probe()
 		}
 	}
+	// soak: every failing request class repeated many times with bodies close to the 1 MiB limit (resource
+	// accounting that leaks on an error path exhausts only after dozens of large requests), then probes
+	c19Soak(c, srv, seq, probe)
 	srv = c19SkewProbes(c, srv)
 	if srv == nil {
 		return
